@@ -3,7 +3,7 @@ import ast
 
 from sa.cfg import CFG
 from sa import guards as G
-from sa.common import expand_name, returns_of
+from sa.common import expand_name, label_set, returns_of
 from sa.defuse import DefUse, loc_name
 from sa.model import AnalysisError, AnchorMissing, const_value, src, walk_function
 from sa.struct import call_name, find, kwarg, norm
@@ -26,26 +26,24 @@ ASSUMPTIONS = [
 FN = "ibldsp.voltage.interpolate_bad_channels"
 
 
-def d1_rows(ctx):
-    ctx.rule("D1", "only rows i in where(labels==1 | labels==2)[0] of data are stored")
-    repo = ctx.repo
-    fi = repo.fn(FN)
-    du = DefUse(fi.node)
-    loops = [n for n in walk_function(fi.node) if isinstance(n, ast.For)]
-    if not loops:
-        raise AnchorMissing("interpolate_bad_channels: loop over bad channels not found")
-    lp = loops[0]
-    it = expand_name(du, lp.iter, lp)
-    s = src(it)
-    labs = set()
-    for c in find(it, ast.Compare):
-        if isinstance(c.ops[0], ast.Eq) and loc_name(c.left) == "channel_labels":
-            labs.add(const_value(c.comparators[0])[1])
-    ok_it = "where" in s and labs == {1, 2} and "logical_or" in s or ("|" in s and labs == {1, 2})
-    ok_it = ok_it and isinstance(it, ast.Subscript) and const_value(it.slice) == (True, 0)
-    ctx.check(ok_it, fi, lp, it, "the loop visits exactly the channels labelled dead (1) or noisy (2)",
-              f"the repaired set `{s}` is not where(labels == 1 | labels == 2)[0] (labels found: {sorted(labs, key=str)})", key="bad-set")
-    ivar = loc_name(lp.target)
+LABELS = ("channel_labels",)
+BAD = frozenset({1, 2})
+
+
+def _is_full(sl):
+    return isinstance(sl, ast.Slice) and sl.lower is None and sl.upper is None and sl.step is None
+
+
+def _repair_scope(fi, du):
+    """(loop or None, nodes): the per-channel loop of the pinned form (its iterable is a function of the labels) or, for a vectorised
+    body, the whole function."""
+    for n in walk_function(fi.node):
+        if isinstance(n, ast.For) and label_set(du, n.iter, n, LABELS) is not None:
+            return n, [x for b in n.body for x in ast.walk(b)]
+    return None, [x for b in fi.node.body for x in ast.walk(b)]
+
+
+def _data_stores(fi):
     stores = []
     for n in walk_function(fi.node):
         tg = None
@@ -61,58 +59,117 @@ def d1_rows(ctx):
                 stores.append((n, t))
             elif loc_name(t) == "data":
                 stores.append((n, t))
+    return stores
+
+
+def d1_rows(ctx):
+    ctx.rule("D1", "only rows of data whose label is dead (1) or noisy (2) are stored - all of them, no other")
+    repo = ctx.repo
+    fi = repo.fn(FN)
+    du = DefUse(fi.node)
+    lp, _ = _repair_scope(fi, du)
+    stores = _data_stores(fi)
     if not stores:
         raise AnchorMissing("interpolate_bad_channels: no store into data")
+    sets = []
     for n, t in stores:
-        ok = isinstance(t, ast.Subscript) and isinstance(t.slice, ast.Tuple) and loc_name(t.slice.elts[0]) == ivar and \
-            any(x is n for b in lp.body for x in ast.walk(b))
-        ctx.check(ok, fi, n, n, "store addresses the bad channel's own row", f"`{src(n)[:80]}` writes rows other than the bad channel being repaired", key="store:" + norm(t)[:50])
+        ok = False
+        ls = None
+        if isinstance(t, ast.Subscript):
+            row = t.slice.elts[0] if isinstance(t.slice, ast.Tuple) else t.slice
+            ls = label_set(du, row, n, LABELS)
+            ok = ls is not None and ls <= BAD
+        if ls is not None:
+            sets.append(ls)
+        ctx.check(ok, fi, n, n, f"store addresses rows labelled {sorted(ls) if ls is not None else '?'} only",
+                  f"`{src(n)[:80]}` writes rows other than channels labelled dead / noisy (labels selected: {sorted(ls) if ls is not None else 'not a function of the labels'})",
+                  key="store:" + norm(t)[:50], name_free=True)
+    allbad = frozenset().union(*sets) if sets else frozenset()
+    ctx.check(allbad == BAD, fi, stores[0][0], f"repaired label set {sorted(allbad)}", "every channel labelled dead (1) or noisy (2) is repaired",
+              f"the repaired set covers labels {sorted(allbad)}, not exactly {{1, 2}}", key="bad-set", name_free=True)
     for r in returns_of(fi.node):
         ctx.check(loc_name(r.value) == "data", fi, r, r, "the (in-place repaired) array is returned", "something other than the repaired array is returned", key="ret")
 
 
 def d2_d3_weights(ctx):
-    ctx.rule("D2", "weights[bad_channels] = 0 precedes normalisation and support selection")
+    ctx.rule("D2", "donor exclusion: exactly the channels labelled dead / noisy get zero weight (good and outside-brain channels stay donors), before "
+                   "normalisation and support selection")
     repo = ctx.repo
     fi = repo.fn(FN)
     du = DefUse(fi.node)
     cfg = du.cfg
-    lp = [n for n in walk_function(fi.node) if isinstance(n, ast.For)][0]
-    body = [x for b in lp.body for x in ast.walk(b)]
-    zero = [n for n in body if isinstance(n, ast.Assign) and isinstance(n.targets[0], ast.Subscript) and loc_name(n.targets[0].value) == "weights"
-            and loc_name(n.targets[0].slice) == "bad_channels" and const_value(n.value) == (True, 0)]
+    lp, body = _repair_scope(fi, du)
+    hdr = [cfg.node_for(lp)] if lp is not None else []
+    anchor = lp if lp is not None else fi.node
+    # is the weight array a matrix (one row per repaired channel, one column per donor)?
+    wsubs = [n for n in body if isinstance(n, ast.Subscript) and loc_name(n.value) == "weights"]
+    matrix = any(isinstance(n.slice, ast.Tuple) for n in wsubs)
+    zero, thresh, wrong_axis = [], [], []
+    for n in body:
+        if not (isinstance(n, ast.Assign) and isinstance(n.targets[0], ast.Subscript) and loc_name(n.targets[0].value) == "weights" and const_value(n.value) == (True, 0)):
+            continue
+        sl = n.targets[0].slice
+        if find(sl, ast.Compare) and any(loc_name(c.left) == "weights" or loc_name(c.comparators[0]) == "weights" for c in find(sl, ast.Compare)):
+            thresh.append(n)
+            continue
+        idx = sl
+        if isinstance(sl, ast.Tuple) and len(sl.elts) == 2:
+            if _is_full(sl.elts[0]):
+                idx = sl.elts[1]
+            elif _is_full(sl.elts[1]):
+                idx = sl.elts[0]
+                wrong_axis.append(n)
+        ls = label_set(du, idx, n, LABELS)
+        if ls is not None:
+            zero.append((n, ls))
+    if matrix:
+        for n in wrong_axis:
+            ctx.violation(fi, n, n, "the zero store addresses rows of the weight matrix (the channels being repaired), not its donor columns", key="zero-axis", name_free=True)
+        zero = [(n, ls) for n, ls in zero if n not in wrong_axis]
     normd = [n for n in body if isinstance(n, ast.Assign) and loc_name(n.targets[0]) == "weights" and isinstance(n.value, ast.BinOp)
-             and isinstance(n.value.op, ast.Div) and "sum" in src(n.value.right)]
-    normd += [n for n in body if isinstance(n, ast.AugAssign) and loc_name(n.target) == "weights" and isinstance(n.op, ast.Div) and "sum" in src(n.value)]
+             and isinstance(n.value.op, ast.Div) and "sum" in src(expand_name(du, n.value.right, n)) + src(n.value.right) + _deep_src(du, n.value.right, n)]
+    normd += [n for n in body if isinstance(n, ast.AugAssign) and loc_name(n.target) == "weights" and isinstance(n.op, ast.Div) and "sum" in src(n.value) + _deep_src(du, n.value, n)]
     supp = [n for n in body if isinstance(n, ast.Assign) and isinstance(n.value, (ast.Subscript, ast.Call)) and "where" in src(n.value) and "weights" in src(n.value)
-            and loc_name(n.targets[0]) not in ("weights",)]
+            and loc_name(n.targets[0]) not in ("weights",) and "sum" not in src(n.value)]
+    excluded = frozenset().union(*[ls for _, ls in zero]) if zero else frozenset()
     if not zero:
-        ctx.violation(fi, lp, "weights[bad_channels] = 0", "bad channels are not excluded from the interpolation weights: a dead/noisy neighbour leaks into the repair", key="zeroing")
+        ctx.violation(fi, anchor, "weights[bad_channels] = 0", "bad channels are not excluded from the interpolation weights: a dead/noisy neighbour leaks into the repair", key="zeroing")
+    else:
+        ctx.check(BAD <= excluded, fi, zero[0][0], f"zero-weight labels {sorted(excluded)}", "dead and noisy channels carry no weight",
+                  f"only labels {sorted(excluded)} are excluded from the donors: a {'dead' if 1 not in excluded else 'noisy'} neighbour leaks into the repair", key="zeroing", name_free=True)
+        extra = excluded - BAD
+        ctx.check(not extra, fi, zero[0][0], f"zero-weight labels {sorted(excluded)}", "good and outside-brain channels remain donors",
+                  f"`{src(zero[0][0])}` also removes channels labelled {sorted(extra)} from the donors ({'outside-brain' if 3 in extra else 'good'} channels): a bad channel next to them "
+                  f"is rebuilt from fewer neighbours than the convex combination the repair is defined as - or set to zero although usable neighbours exist", key="donor-set", name_free=True)
     if not normd:
-        ctx.violation(fi, lp, "weights = weights / sum(weights)", "weights are not normalised to sum to one: the repair is not a convex combination", key="normalise")
+        ctx.violation(fi, anchor, "weights = weights / sum(weights)", "weights are not normalised to sum to one: the repair is not a convex combination", key="normalise")
     if not supp:
         raise AnalysisError("interpolate_bad_channels: support selection (where on weights) not found")
     if zero and normd:
-        zn, nn = cfg.node_for(zero[0]), cfg.node_for(normd[0])
-        ctx.check(cfg.must_pass([zn], nn), fi, zero[0], zero[0], "bad channels carry zero weight before normalisation",
+        zn, nn = cfg.node_for(zero[0][0]), cfg.node_for(normd[0])
+        ctx.check(all(cfg.must_pass([cfg.node_for(z)], nn) for z, _ in zero), fi, zero[0][0], zero[0][0], "bad channels carry zero weight before normalisation",
                   "weights are normalised before the bad channels are zeroed: the remaining weights no longer sum to one", key="zero-before-norm")
-        ctx.check(cfg.must_pass([zn], cfg.node_for(supp[0])), fi, zero[0], zero[0], "bad channels are excluded before the support is chosen",
+        ctx.check(cfg.must_pass([zn], cfg.node_for(supp[0])), fi, zero[0][0], zero[0][0], "bad channels are excluded before the support is chosen",
                   "the support is chosen before bad channels are zeroed", key="zero-before-supp")
-        # sum over the same vector
-        nv = normd[0].value if isinstance(normd[0], ast.Assign) else normd[0].value
-        sm = [c for c in find(nv, ast.Call) if call_name(c) == "sum"]
-        ctx.check(bool(sm) and loc_name(sm[0].args[0]) == "weights", fi, normd[0], normd[0], "normalised by the sum of the very weights", "normalised by something other than sum(weights)",
-                  key="norm-sum")
+        # sum over the same vector (along the donor axis for a matrix)
+        nv = normd[0].value
+        div = nv.right if isinstance(nv, ast.BinOp) else nv
+        sm = [c for c in find(div, ast.Call) if call_name(c) == "sum"] or [c for c in _deep_nodes(du, div, normd[0]) if isinstance(c, ast.Call) and call_name(c) == "sum"]
+        oksum = bool(sm) and loc_name(sm[0].args[0]) == "weights"
+        if oksum and matrix:
+            ax = kwarg(sm[0], "axis") or (sm[0].args[1] if len(sm[0].args) > 1 else None)
+            oksum = ax is not None and const_value(ax) in ((True, 1), (True, -1))
+        ctx.check(oksum, fi, normd[0], normd[0], "normalised by the sum of the very weights" + (" over the donor axis" if matrix else ""),
+                  "normalised by something other than the sum of the weights over the donors", key="norm-sum")
     ctx.rule("D3", "convexity: no positive weight dropped after normalisation; support = non-zero weights; same support on weights and rows; empty -> zeros")
     if normd:
         nn = cfg.node_for(normd[0])
         # threshold stores after normalisation
-        late = [n for n in body if isinstance(n, ast.Assign) and isinstance(n.targets[0], ast.Subscript) and loc_name(n.targets[0].value) == "weights"
-                and find(n.targets[0].slice, ast.Compare) and cfg.reachable(nn, cfg.node_for(n), avoid=[cfg.node_for(lp)])]
+        late = [n for n in thresh if cfg.reachable(nn, cfg.node_for(n), avoid=hdr)]
         ctx.check(not late, fi, late[0] if late else normd[0], late[0] if late else "no threshold after normalisation", "no weight is cut after normalisation",
                   f"`{src(late[0]) if late else ''}` zeroes weights after they were normalised: the remaining weights sum to less than one", key="late-threshold")
         for s_ in supp:
-            if not cfg.reachable(nn, cfg.node_for(s_), avoid=[cfg.node_for(lp)]):
+            if not cfg.reachable(nn, cfg.node_for(s_), avoid=hdr):
                 ctx.ok(fi, s_, s_, "support chosen before normalisation (scale-free)", key="support")
                 continue
             cmp_ = find(s_.value, ast.Compare)
@@ -125,17 +182,31 @@ def d2_d3_weights(ctx):
     ctx.check(bool(wd), fi, wd[0].stmt if wd else fi.node, wd[0].stmt if wd else "weights = exp(...)", "raw weights are exp(...) > 0", "raw weights are not an exponential decay (may be negative)",
               key="nonneg")
     # combination uses same support
-    mm = [c for c in find(lp, ast.Call) if call_name(c) in ("matmul", "dot")]
+    mm = [c for c in body if isinstance(c, ast.Call) and call_name(c) in ("matmul", "dot")]
     if not mm:
-        ctx.violation(fi, lp, "matmul(weights[imult], data[imult, :])", "replacement is not a weighted sum of neighbours", key="combine")
+        ctx.violation(fi, anchor, "matmul(weights[imult], data[imult, :])", "replacement is not a weighted sum of neighbours", key="combine")
     for c in mm:
         a, b = c.args[:2]
-        sa_ = loc_name(a.slice) if isinstance(a, ast.Subscript) else None
+        sa_ = None
+        if isinstance(a, ast.Subscript):
+            if matrix and isinstance(a.slice, ast.Tuple) and len(a.slice.elts) == 2 and _is_full(a.slice.elts[0]):
+                sa_ = loc_name(a.slice.elts[1])
+            elif not matrix and not isinstance(a.slice, ast.Tuple):
+                sa_ = loc_name(a.slice)
         sb_ = loc_name(b.slice.elts[0]) if isinstance(b, ast.Subscript) and isinstance(b.slice, ast.Tuple) else None
         ok = sa_ is not None and sa_ == sb_ and loc_name(a.value) == "weights" and loc_name(b.value) == "data" and \
             {d.idx for d in du.reaching(sa_, a)} == {d.idx for d in du.reaching(sa_, b)}
         ctx.check(ok, fi, c, c, "weights and neighbour rows are gathered with the same support", f"`{src(c)}`: weights and rows are gathered with different selectors", key="same-support")
     # empty support -> zeros
+    if matrix:
+        # a row of zero weights must stay a row of zeros: the divisor is guarded against 0 (where(wsum > 0, wsum, 1) / maximum / wsum == 0 handling)
+        okz = False
+        if normd:
+            dn = _deep_nodes(du, normd[0].value.right if isinstance(normd[0].value, ast.BinOp) else normd[0].value, normd[0])
+            okz = any(isinstance(c, ast.Call) and call_name(c) in ("where", "maximum", "clip") for c in dn)
+        ctx.check(okz, fi, normd[0] if normd else anchor, normd[0] if normd else "normalisation", "a bad channel without usable neighbours becomes zeros (zero row / guarded divisor)",
+                  "a row of zero weights is divided by its zero sum: NaN instead of zeros for a bad channel without neighbours", key="empty-support")
+        return
     z = [n for n in body if isinstance(n, ast.Assign) and isinstance(n.targets[0], ast.Subscript) and loc_name(n.targets[0].value) == "data" and const_value(n.value) == (True, 0)]
     okz = False
     for n in z:
@@ -143,8 +214,25 @@ def d2_d3_weights(ctx):
         at_ = G.Atoms()
         pc = G.path_condition(cfg, cfg.node_for(n), at_)
         okz = okz or any(G.entails(pc, G.Atom(k)) is True for k in G.atoms_of(pc) if k.endswith(".size == 0") or (k.startswith("len(") and k.endswith("== 0")))
-    ctx.check(okz, fi, z[0] if z else lp, z[0] if z else "data[i, :] = 0", "a bad channel without usable neighbours becomes zeros", "the no-neighbour case does not produce zeros (NaN from 0/0 would propagate)",
+    ctx.check(okz, fi, z[0] if z else anchor, z[0] if z else "data[i, :] = 0", "a bad channel without usable neighbours becomes zeros", "the no-neighbour case does not produce zeros (NaN from 0/0 would propagate)",
               key="empty-support")
+
+
+def _deep_nodes(du, e, at, depth=3):
+    """AST nodes of e with names expanded to their definitions (a few levels)."""
+    out = list(ast.walk(e))
+    if depth <= 0:
+        return out
+    for n in list(out):
+        if isinstance(n, ast.Name):
+            v = expand_name(du, n, at)
+            if v is not n:
+                out += _deep_nodes(du, v, at, depth - 1)
+    return out
+
+
+def _deep_src(du, e, at):
+    return " ".join(src(n) for n in _deep_nodes(du, e, at) if isinstance(n, ast.Call))
 
 
 def _is_exp_decay(repo, fi, du, e, at, depth=0):
